@@ -120,25 +120,4 @@ Proof.
       cbn [app]. rewrite skipn_firstn_comm. f_equal; [lia|f_equal; lia].
 Qed.
 
-(* every history of Length / Peek / Retrieve on a well-formed ring shows exactly what the same history shows on the
-   content, and ends in a well-formed ring holding the content the abstract history ends with *)
-Theorem ring_history_refines ops : forall g, ring_wf g ->
-  snd (run_ops ring_step g ops) = snd (run_ops content_step (ring_content g) ops) /\
-  ring_content (fst (run_ops ring_step g ops)) = fst (run_ops content_step (ring_content g) ops) /\
-  ring_wf (fst (run_ops ring_step g ops)).
-Proof.
-  induction ops as [|o ops IH]; intros g WF; [cbn; auto|].
-  assert (ST: snd (ring_step g o) = snd (content_step (ring_content g) o) /\
-              ring_content (fst (ring_step g o)) = fst (content_step (ring_content g) o) /\ ring_wf (fst (ring_step g o))).
-  { destruct o as [|n|n]; cbn [ring_step content_step fst snd].
-    - rewrite ring_length_refines by exact WF. auto.
-    - rewrite ring_peek_refines by exact WF. auto.
-    - destruct (ring_retrieve_refines g n WF); auto. }
-  destruct ST as (S1 & S2 & S3). cbn [run_ops].
-  destruct (ring_step g o) as [g1 b] eqn:E1. destruct (content_step (ring_content g) o) as [c1 b'] eqn:E2.
-  cbn [fst snd] in S1, S2, S3. subst b' c1.
-  specialize (IH g1 S3). destruct (run_ops ring_step g1 ops) as [g2 bs]. destruct (run_ops content_step (ring_content g1) ops) as [c2 bs'].
-  cbn [fst snd] in *. destruct IH as (I1 & I2 & I3). subst. auto.
-Qed.
-
 End RingP.
